@@ -5,6 +5,7 @@ from dataclasses import dataclass, field
 
 from .common import MachineryError, build_harness, log
 from . import pipeline
+from . import tables
 
 
 @dataclass
@@ -116,18 +117,20 @@ def replay(v, workdir):
 EV = ["cres", "cev"]
 PROPS = {
     "C01": dict(run=gateway_run(["stream", "gc", "query", "win-load", "win-query", "win-alias", "win-gc"], EV)),
-    "C02": dict(run=gateway_run(["gc", "stream", "win-gc", "win-load"], EV)),
+    "C02": dict(run=tables.combine(gateway_run(["gc", "stream", "win-gc", "win-load"], EV), tables.tables_run(["gc"], "collector"))),
     "C03": dict(run=gateway_run(["stream", "access", "win-load", "win-recheck"], ["cev"])),
     "C07": dict(run=gateway_run(["gc", "access", "win-gc", "win-recheck"], ["cres"])),
     "C08": dict(run=gateway_run(["gc", "cache", "win-gc", "win-evict"], ["cres"])),
     "C09": dict(run=gateway_run(["cache", "query", "win-evict"], ["msub", "munsub", "mreq"])),
-    "C10": dict(run=gateway_run(["access", "win-recheck"], ["mreq", "cres", "cev"])),
+    "C10": dict(run=gateway_run(["access", "win-recheck", "win-indirect"], ["mreq", "cres", "cev"])),
     "C11": dict(run=gateway_run(["cache", "access", "win-evict"], ["close", "sockClosed"])),
-    "C04": dict(run=gateway_run(["access", "cache", "win-recheck"], ["mres", "cres"])),
-    "C05": dict(run=gateway_run(["access", "win-recheck"], ["mreq"])),
+    "C04": dict(run=gateway_run(["access", "cache", "win-recheck", "win-indirect"], ["mres", "cres"])),
+    "C05": dict(run=tables.combine(gateway_run(["access", "win-recheck"], ["mreq"]), tables.tables_run(["calllist"], "CanCall"))),
+    "C12": dict(run=tables.combine(tables.tables_run(["pattern", "coldiff", "modeldiff"], "reset matching / diff"),
+                                   gateway_run(["stream", "win-load", "win-alias"], ["mreq", "cev"], also=("C01",)))),
     "C06": dict(run=gateway_run(["access", "stream", "win-recheck", "win-load"], ["note", "cev"])),
     "C13": dict(run=gateway_run(["query", "win-query", "win-alias"], ["mreq", "mres"], also=("C01",))),
-    "C15": dict(run=gateway_run(["gc", "stream", "access", "cache", "query", "win-load", "win-recheck", "win-query", "win-alias", "win-evict", "win-gc"], ["cres", "cev"])),
+    "C15": dict(run=gateway_run(["gc", "stream", "access", "cache", "query", "win-load", "win-recheck", "win-query", "win-alias", "win-evict", "win-gc", "win-indirect"], ["cres", "cev"])),
 }
 
 
@@ -154,6 +157,9 @@ TEXT = {
     "C10": _t("Every client frame scanned for every live connection id; every connection-bound request must carry the id of a live connection and its token.", TECH),
     "C11": _t("Disconnects at arbitrary points of the schedules; after the connection's conn subscription is removed no request may carry its id, it must be gone from the snapshot, use counts must match subscribers.", TECH),
     "C13": _t("Query families: aliasing queries, query events with every answer kind; convergence (C01 predicate) per alias rid, lock released at quiescence, no stall.", TECH),
+    "C12": _t("Pattern matching and both diff routines are checked exhaustively over bounded domains against definitional TLA+ modules (spec/fn/ResPattern.tla, ResDiff.tla); the protocol part (re-fetch of exactly the matching cached resources, convergence after silent mutations + reset) is checked on replayed schedules by the observer.",
+              "exhaustive function tables checked by TLC against spec/fn + TLC-generated schedules with resets validated by the observer spec",
+              note="Tables: patterns <= 4 (thorough 5) symbols over {a,b,.,*,>,?} plus invalid-character variants x all valid names <= 5 over {a,b,.}; collections <= 3 (4) long over three value tokens; models over 2 (3) keys x 5 value options. " + GW_NOTE),
     "C15": _t("Any panic of the gateway process or failure to reach quiescence in any replayed schedule of any family is a violation; the crashing schedule is the replay.", TECH),
 }
 NOT_YET = {}
